@@ -401,8 +401,13 @@ func convertColumnToNumbers(wipBlock *WipBlock, colName string, segmentKey strin
 				continue
 			}
 
-			// Try converting to a float.
+			// Try converting to a float. strconv.ParseFloat also reads "nan", "inf",
+			// "infinity", "1_000" and hex floats; take only what the column stats
+			// (FastParseFloat) take for a number.
 			floatVal, err := strconv.ParseFloat(numberAsString, 64)
+			if err == nil {
+				_, err = utils.FastParseFloat([]byte(numberAsString))
+			}
 			if err == nil {
 				// Conversion succeeded.
 				newColWip.cbuf.Append(sutils.VALTYPE_ENC_FLOAT64[:])
